@@ -29,7 +29,7 @@ package dig
 
 //@ func (*Result).GetRow props=C10,C09
 //@   requires resInv(r)
-//@   ensures [cleared] @C09 forall j int :: 0 <= j && j < len(result) ==> len(result[j]) == 0
+//@   ensures [cleared] forall j int :: 0 <= j && j < len(result) ==> len(result[j]) == 0
 //@   ensures [frame] r.ncols == old(r.ncols) && r.n == old(r.n) + 1 && r.t == old(r.t) && r.singleton == old(r.singleton)
 //@   ensures [n] 0 <= r.n && r.n <= len(r.collection)
 //@   ensures [rows] forall k int :: 0 <= k && k < len(r.collection) ==> rowlen(r.collection, k) == r.ncols
